@@ -377,7 +377,7 @@ theorem evalTuple_spec {E : Type} (std : Std) (cel : Cel E) (condName : String) 
   | some c =>
     by_cases hname : condName = c.name
     · subst hname
-      simp only [ne_eq, not_true_eq_false, if_false, mergeCtx_eq]
+      simp only [ne_eq, not_true_eq_false, if_false]
       cases hev : evaluate std cel c (req.getD []) tup.toList with
       | error e =>
         simp only
